@@ -12,7 +12,7 @@ HELD = " Held means no divergence on the executions listed in evidence, not a pr
 # id -> dict(level, text, note, technique)
 claimed = {
  "C01": dict(level=E,
-   text="Runtime monitoring of the real constructors/encoder/decoder on 44k (quick) / 1.6M (thorough) generated trees per run (leaves at every length boundary, random trees, list chains of every depth 1..64, slab- and count-boundary lists, many empty lists before and next to a deep part, giants): an independent SEMI E5 reference encoder supplies the expected bytes, and the item is compared to its logical value through every public accessor before and after a decode round trip; -race/checkptr slice included." + HELD,
+   text="Runtime monitoring of the real constructors/encoder/decoder on 44k (quick) / 1.6M (thorough) generated trees per run (leaves at every length boundary, random trees, list chains of every depth 1..64, slab- and count-boundary lists, many empty lists before and next to a deep part, giants; ~1500 numeric items built from arguments wider than the item in every argument shape, whose bytes must decode to what their accessors report): an independent SEMI E5 reference encoder supplies the expected bytes, and the item is compared to its logical value through every public accessor before and after a decode round trip; -race/checkptr slice included." + HELD,
    note="Trusts harness/ref/e5 as the reading of SEMI E5; F4 NaN payloads are compared as NaN only. Known finding (list with EmptyItem child) is reported as KNOWN-FINDING.",
    technique="differential runtime monitor: reference E5 encoder + accessor-level oracle over generated constructor recipes; race detector/checkptr slice"),
  "C02": dict(level=E,
@@ -32,7 +32,7 @@ claimed = {
    note="The enumerated axes are complete; timing inside each case is sampled (vhook delays). 'Connecting' is modelled as refused port (active) / no peer (passive).",
    technique="enumerated situation x API product with wire/peer/metric observers; conservation monitor under racing select/deselect; exhaustive cut-point segmentation"),
  "C08": dict(level=E,
-   text="1600 (quick) / 24k (thorough) peer frame sequences (length 1..12 over every SType 0..255, PType, body, arbitrary ids/status bytes; active and passive, validation on/off, host/equipment, coalesced or per-frame writes, supervisor-step delays, second TCP connections, frames pipelined behind a session-ending Separate.req) each played against a fresh real connection; the exact FIFO outbound frame list fenced by a Linktest barrier, State() and handler deliveries are compared with an independent E37 responder state machine; plus the complete 72-case product (x6 thorough) of a control response carrying the system bytes of a data transaction the library itself has open, sent while its sender is parked right behind the write or already waiting (exactly one Reject.req reason 3, link stays Selected, the genuine secondary still completes the send). Race build." + HELD,
+   text="1600 (quick) / 24k (thorough) peer frame sequences (length 1..12 over every SType 0..255, PType, body, arbitrary ids/status bytes incl. session ids one bit off the configured one and Linktest.req carrying a session id; active and passive, validation on/off, host/equipment, coalesced or per-frame writes, supervisor-step delays, second TCP connections, frames pipelined behind a session-ending Separate.req) each played against a fresh real connection; the exact FIFO outbound frame list fenced by a Linktest barrier, State() and handler deliveries are compared with an independent E37 responder state machine (responses also on session id and header byte 2); plus the complete 72-case product (x6 thorough) of a control response carrying the system bytes of a data transaction the library itself has open, sent while its sender is parked right behind the write or already waiting (exactly one Reject.req reason 3, link stays Selected, the genuine secondary still completes the send). Race build." + HELD,
    note="Trusts the responder table in c08Model (from the property text / E37). Two scheduling-dependent answers are accepted either way and documented (duplicate Select.rsp racing transaction close; S9F1 gated at write time).",
    technique="reference-model monitor: independent E37 responder FSM vs barrier-fenced outbound frame log of a real connection"),
  "C09": dict(level=F,
@@ -48,7 +48,7 @@ claimed = {
    note="hsmsss transport. Exact equality with the peer's counts is required only at fault-free quiescent points; across a drop Send is bounded (a successful write may die in the socket buffer).",
    technique="conservation monitor: independent accountant vs library counters at quiescent points + gauge sampler"),
  "C03": dict(level=E,
-   text="Codec half: ~145k (quick) / 1.5M (thorough) constructor/serialise/decode cases (all streams 0..255 x function classes x W, all nine control constructors x all 256 status/reason/type bytes exhaustively, NewRejectReqRaw 256x256 exhaustively, re-stamp/derive chains) against an independent E37 frame model (harness/ref/e37 + ref/e5 bodies). Wire half: a real hsmsss connection sends generated messages through all six send entry points and the raw peer's bytes are compared with Message.ToBytes() and the reference frame; the control frames the library emits (Select, Linktest.rsp, Reject, Separate) are compared byte for byte." + HELD,
+   text="Codec half: ~145k (quick) / 1.5M (thorough) constructor/serialise/decode cases (all streams 0..255 x function classes x W, all nine control constructors x all 256 status/reason/type bytes exhaustively (responses built from pristine, re-stamped and junk-header requests, Linktest.req with a session id), NewRejectReqRaw 256x256 exhaustively, re-stamp/derive chains) against an independent E37 frame model (harness/ref/e37 + ref/e5 bodies). Wire half: a real hsmsss connection sends generated messages through all six send entry points and the raw peer's bytes are compared with Message.ToBytes() and the reference frame; the control frames the library emits (Select, Linktest.rsp, Reject, Separate) are compared byte for byte." + HELD,
    note="Trusts harness/ref/e37 and ref/e5 as the reading of E37/E5. Known finding: a valid message whose frame exceeds 2^24-1 bytes cannot be decoded by the library itself (documented limitation M6) - reported as KNOWN-FINDING.",
    technique="differential runtime monitor: independent E37 frame model vs constructors/ToBytes/decoders; socket-byte capture by a raw peer vs ToBytes"),
  "C04": dict(level=E,
@@ -64,7 +64,7 @@ claimed = {
    note="Encode-once of a constructed body has no API-visible identity; only its consequences (identical bytes, no race report) are judged. Documented ownership transfer (DecodeOwned*) is exempt from input-mutation checks.",
    technique="snapshot/mutate/compare monitor against a pristine twin + race detector under barrier-released concurrent readers"),
  "C13": dict(level=E,
-   text="36k (quick) / 600k (thorough) messages over the stated item grammar (ASCII items over all 256 byte values incl. every single byte and every ordered pair of grammar-relevant bytes, numeric extremes, empty items, nesting to 64, permitted JIS-8/localized text) x all 72 encoder option combinations: strict encode -> strict parse must give one message with the same S/F/W and an Equal body (also compared accessor by accessor); conversely 20k / 300k grammar-generated texts the strict parser accepts are re-encoded under every option set and re-parsed." + HELD,
+   text="36k (quick) / 600k (thorough) messages over the stated item grammar (ASCII items over all 256 byte values incl. every single byte and every ordered pair of grammar-relevant bytes, numeric extremes, empty items, nesting to 64, 63..365 empty lists next to each other and around deep chains, permitted JIS-8/localized text) x all 72 encoder option combinations: strict encode -> strict parse must give one message with the same S/F/W and an Equal body (also compared accessor by accessor); conversely 20k / 300k grammar-generated texts the strict parser accepts are re-encoded under every option set and re-parsed." + HELD,
    note="'Control characters' is read as Unicode Cc / bytes 00-1F,7F-9F. One genuine defect was repaired ('>' unescaped); two remain as known findings (localized text is rendered with Go quoting that the parser never unescapes).",
    technique="round-trip runtime monitor over grammar-hostile generated messages and parser-accepted texts x all option combinations"),
  "C14": dict(level=E,
